@@ -97,9 +97,55 @@ type WideSpec struct {
 	Gap    int  `json:"gap"` // docs with i%Gap==Gap-1 have no "wf" field at all (0 = none)
 }
 
+// VecWideSpec is a parametric description of many one-vector documents (so
+// that a field's index crosses the 1000-vector threshold and becomes a
+// clustered index). Vectors come from a fixed linear congruential sequence.
+type VecWideSpec struct {
+	N      int    `json:"n"`
+	Field  string `json:"field"`
+	Dim    int    `json:"dim"`
+	Metric string `json:"metric"`
+	Opt    string `json:"opt"`
+	Seed   uint32 `json:"seed"`
+	Every  int    `json:"every"` // docs with i%Every==Every-1 carry no vector (0 = all carry one)
+}
+
 type BatchSpec struct {
-	Docs []DocSpec `json:"docs,omitempty"`
-	Wide *WideSpec `json:"wide,omitempty"`
+	Docs    []DocSpec    `json:"docs,omitempty"`
+	Wide    *WideSpec    `json:"wide,omitempty"`
+	VecWide *VecWideSpec `json:"vecWide,omitempty"`
+}
+
+func (w *VecWideSpec) expand() []DocSpec {
+	out := make([]DocSpec, 0, w.N)
+	x := w.Seed*2654435761 + 12345
+	next := func() uint32 {
+		x = x*1664525 + 1013904223
+		return x >> 16
+	}
+	for i := 0; i < w.N; i++ {
+		d := DocSpec{ID: B(fmt.Sprintf("v%06d", i))}
+		if w.Every > 0 && i%w.Every == w.Every-1 {
+			out = append(out, d)
+			continue
+		}
+		v := make([]float32, w.Dim)
+		if w.Metric == "cosine" {
+			a := int(next()) % w.Dim
+			if next()%2 == 0 {
+				v[a] = 1
+			} else {
+				v[a] = -1
+			}
+		} else {
+			for j := range v {
+				v[j] = float32(int(next()%41) - 20)
+			}
+		}
+		d.Fields = []FieldSpec{{Name: w.Field, Kind: KindVec, Vec: &VecSpec{Dim: w.Dim, Data: v, Metric: w.Metric, Opt: w.Opt}}}
+		out = append(out, d)
+	}
+	return out
 }
 
 // IDField is the synthesized _id field of a document.
@@ -173,11 +219,17 @@ func (w *WideSpec) expand() []DocSpec {
 
 // AllDocs returns the explicit documents followed by the wide expansion.
 func (b *BatchSpec) AllDocs() []DocSpec {
-	if b.Wide == nil {
+	if b.Wide == nil && b.VecWide == nil {
 		return b.Docs
 	}
 	out := append([]DocSpec(nil), b.Docs...)
-	return append(out, b.Wide.expand()...)
+	if b.Wide != nil {
+		out = append(out, b.Wide.expand()...)
+	}
+	if b.VecWide != nil {
+		out = append(out, b.VecWide.expand()...)
+	}
+	return out
 }
 
 // NumDocs is len(AllDocs()) without expanding.
@@ -185,6 +237,9 @@ func (b *BatchSpec) NumDocs() int {
 	n := len(b.Docs)
 	if b.Wide != nil {
 		n += b.Wide.N
+	}
+	if b.VecWide != nil {
+		n += b.VecWide.N
 	}
 	return n
 }
